@@ -68,3 +68,75 @@ def rule_keys(run, rid, F, cfg, structs, enums, why):
                        f"the derived Serialize of {ty} writes field {i} under \"{key}\"; its Deserialize maps that key "
                        f"to {dk.get(key, 'absent')!r}", site=ss["fn"].loc(b), config=cfg)
     return n
+
+
+# IANA media types (plus the crate's own `fn/javascript`): they come from resource bundles written by other tools and go
+# out in `data:` URLs that browsers interpret
+MIME = {
+    "text/css": "TextCss", "image/gif": "ImageGif", "text/html": "TextHtml",
+    "application/javascript": "ApplicationJavascript", "application/json": "ApplicationJson", "audio/mp3": "AudioMp3",
+    "video/mp4": "VideoMp4", "image/png": "ImagePng", "text/plain": "TextPlain", "text/xml": "TextXml",
+    "fn/javascript": "FnJavascript",
+}
+
+
+def rule_mime(run, rid, F, cfg):
+    """`MimeType::from(&str)` reads each established media type as its variant (anything else: Unknown), and
+    `<&str>::from(&MimeType)` writes the same string back — that string is the media type of the `data:` URL a redirect
+    is answered with. Changing both tables alike keeps them consistent with each other and wrong for everybody else."""
+    import re
+    from analysis.pathinterp import enumerate_paths, path_value
+    r = F.fns.get("<resources::MimeType as std::convert::From<&str>>::from")
+    w = F.fns.get("resources::<impl std::convert::From<&resources::MimeType> for &str>::from")
+    if r is None or w is None:
+        run.ob(rid, "MimeType:conversions", False, "MimeType <-> &str conversions not found", status="UNDISCHARGED", config=cfg)
+        return 0
+    run.touched(r, w)
+    read = {}
+    for p in enumerate_paths(r):
+        if p.end != "return":
+            continue
+        val = re.sub(r"^resources::MimeType::(\w+)\{\}$", r"\1", path_value(r, p, 0) or "")
+        hit = [re.search(r'eq\(arg:v, "([^"]*)"\)$', e).group(1) for e, v in p.conds if v == 1 and re.search(r'eq\(arg:v, "([^"]*)"\)$', e)]
+        read[hit[-1] if hit else "<other>"] = val
+    variants = [v["name"] for v in F.adt("resources::MimeType")["variants"]]
+    written = {}
+    for p in enumerate_paths(w):
+        if p.end != "return":
+            continue
+        d = [v for e, v in p.conds if e == "discr(arg:v)"]
+        if d and isinstance(d[0], int) and d[0] < len(variants):
+            written[variants[d[0]]] = (path_value(w, p, 0) or "").strip('"')
+    want_read = dict(MIME, **{"<other>": "Unknown"})
+    run.ob(rid, "MimeType:read", read == want_read,
+           f"MimeType::from(&str) maps the established media types to their variants and everything else to Unknown "
+           f"(differences: { {k: (read.get(k), want_read.get(k)) for k in set(read) | set(want_read) if read.get(k) != want_read.get(k)} })",
+           site=r.loc(0), config=cfg)
+    want_written = {v: k for k, v in MIME.items()}
+    got_w = {k: v for k, v in written.items() if k != "Unknown"}
+    run.ob(rid, "MimeType:written", got_w == want_written,
+           f"<&str>::from(&MimeType) writes each variant as its established media type "
+           f"(differences: { {k: (got_w.get(k), want_written.get(k)) for k in set(got_w) | set(want_written) if got_w.get(k) != want_written.get(k)} })",
+           site=w.loc(0), config=cfg)
+    return len(read) + len(written)
+
+
+DERIVED_DESERIALIZE = ["resources::PermissionMask", "resources::Resource", "resources::ResourceType", "lists::ParseOptions",
+                       "lists::RuleTypes", "lists::FilterFormat"]
+
+
+def rule_derived(run, rid, F, cfg, types=DERIVED_DESERIALIZE):
+    """The types read from caller-supplied JSON decode through serde's derived code, which reports a value of the wrong
+    shape or range as an error (the whole resource list is then refused). A hand-written impl can quietly turn such a
+    value into a default — for `PermissionMask` that default means "needs no permission"."""
+    import re
+    n = 0
+    for ty in types:
+        cands = [f for nme, f in F.fns.items() if re.search(r"Deserialize<'de>(>)? for " + re.escape(ty) + r">::deserialize$", nme)
+                 or re.search(r"^<" + re.escape(ty) + r" as .*Deserialize<'de>>::deserialize$", nme)]
+        derived = [f for f in cands if isinstance(f.j.get("span"), dict) and any("Derive" in x and "Deserialize" in x for x in f.j["span"].get("exp", []))]
+        n += len(derived)
+        run.ob(rid, f"{ty.split('::')[-1]}:deserialize-is-derived", len(cands) == 1 and len(derived) == 1,
+               f"`{ty}` is decoded by serde's derived Deserialize ({[c.name[:80] for c in cands]}; derived: {len(derived)})",
+               site=cands[0].loc(0) if cands else "", config=cfg)
+    return n
